@@ -75,6 +75,7 @@ VARIABLES
   pausech, resumech,
   mux,         \* "none" or the holder (an app, "loop", "mon")
   lpc,         \* publish loop park point
+  pubSub,      \* the server subscription that answered the outstanding publish request (0 = none)
   pubOut,      \* outcome of the outstanding publish request: "none" | "data" | "keepalive" | "timeout" | "fault"
   mpc, action, activeSubs, toRecreate, toRepublish, restored,
   ctxDone,     \* monitor context cancelled
@@ -91,12 +92,12 @@ VARIABLES
   hist
 
 vars == <<state, closedSeen, apc, script, mine, cur, subs, nextId, srvSubs, srvUp, srvSess, conn, sess, errq,
-          pausech, resumech, mux, lpc, pubOut, mpc, action, activeSubs, toRecreate, toRepublish, restored,
+          pausech, resumech, mux, lpc, pubOut, pubSub, mpc, action, activeSubs, toRecreate, toRepublish, restored,
           ctxDone, dials, dialsAtClose, faults, seq, pend, inflight, ackcnt, datas, lost, fseq, hist>>
 
 \* everything except the history (VIEW of the exhaustive configurations)
 view == <<state, closedSeen, apc, script, mine, cur, subs, nextId, srvSubs, srvUp, srvSess, conn, sess, errq,
-          pausech, resumech, mux, lpc, pubOut, mpc, action, activeSubs, toRecreate, toRepublish, restored,
+          pausech, resumech, mux, lpc, pubOut, pubSub, mpc, action, activeSubs, toRecreate, toRepublish, restored,
           ctxDone, dials, dialsAtClose, faults, seq, pend, inflight, ackcnt, datas, lost, fseq>>
 
 States == {"Closed", "Connecting", "Connected", "Disconnected", "Reconnecting"}
@@ -139,7 +140,7 @@ Init ==
   \* loop goroutine is started before the UpdateNamespaces round trip of Connect).
   /\ pausech = 0 /\ resumech = 0
   /\ mux = "none"
-  /\ lpc = "a.pause" /\ pubOut = "none"
+  /\ lpc = "a.pause" /\ pubOut = "none" /\ pubSub = 0
   /\ mpc = "idle" /\ action = "none" /\ activeSubs = 0 /\ toRecreate = {} /\ toRepublish = {} /\ restored = FALSE
   /\ ctxDone = FALSE /\ dials = 1 /\ dialsAtClose = 0 /\ faults = 0
   /\ seq = 0 /\ pend = {} /\ inflight = {} /\ ackcnt = [n \in 1..(MaxPub + 1) |-> 0] /\ datas = {} /\ lost = {} /\ fseq = <<>>
@@ -150,7 +151,7 @@ Init ==
 \* (sub.resume.sent); Cancel: "f.lock" (forget.lock), "f.locked", "f.psend" (sub.pause.send),
 \* "f.psent".
 
-UNCH_APP == UNCHANGED <<state, closedSeen, srvUp, srvSess, conn, sess, errq, lpc, pubOut, mpc, action, activeSubs,
+UNCH_APP == UNCHANGED <<state, closedSeen, srvUp, srvSess, conn, sess, errq, lpc, pubOut, pubSub, mpc, action, activeSubs,
                         toRecreate, toRepublish, restored, ctxDone, dials, dialsAtClose, faults, seq, pend,
                         inflight, ackcnt, datas, lost, fseq>>
 
@@ -244,7 +245,7 @@ CloseCall(a) ==
   /\ dialsAtClose' = dials
   /\ fseq' = Append(fseq, [k |-> "close", at |-> IF mpc = "m.act" THEN action ELSE mpc])
   /\ Log(a, "Close", IF mpc = "m.act" THEN action ELSE mpc)
-  /\ UNCHANGED <<apc, mine, cur, subs, nextId, srvSubs, srvUp, errq, pausech, resumech, mux, lpc, pubOut, mpc,
+  /\ UNCHANGED <<apc, mine, cur, subs, nextId, srvSubs, srvUp, errq, pausech, resumech, mux, lpc, pubOut, pubSub, mpc,
                  action, activeSubs, toRecreate, toRepublish, restored, dials, faults, seq, pend, inflight, ackcnt, datas, lost>>
 
 App(a) == SubCall(a) \/ SubSend(a) \/ SubReg(a) \/ CancelCall(a) \/ FgLock(a) \/ FgDelete(a)
@@ -293,7 +294,7 @@ LoopSelect(arm) ==
   /\ lpc' = arm
   /\ pubOut' = "none"
   /\ Log("loop", "Select", arm)
-  /\ UNCHANGED <<seq, pend, inflight, ackcnt, datas>> /\ UNCH_LOOP
+  /\ UNCHANGED <<pubSub, seq, pend, inflight, ackcnt, datas>> /\ UNCH_LOOP
 
 \* publish(): RLock/RUnlock twice (blocks while a writer holds subMux), build the request with
 \* the pending acknowledgements, arrive at pub.send
@@ -301,7 +302,7 @@ LoopPubStart ==
   /\ lpc = "a.publish" /\ mux = "none"
   /\ lpc' = "p.send" /\ inflight' = pend /\ pubOut' = "none"
   /\ Log("loop", "PubStart", Cardinality(pend))
-  /\ UNCHANGED <<pausech, resumech, mux, seq, pend, ackcnt, datas>> /\ UNCH_LOOP
+  /\ UNCHANGED <<pausech, resumech, mux, pubSub, seq, pend, ackcnt, datas>> /\ UNCH_LOOP
 
 \* a response arrived: acknowledgements carried by the request are settled
 Settled == [n \in 1..(MaxPub + 1) |-> IF n \in inflight THEN ackcnt[n] + 1 ELSE ackcnt[n]]
@@ -310,25 +311,30 @@ LoopPubResult(o) ==
   /\ lpc = "p.send" /\ o \in {"data", "keepalive", "fault"} /\ OutcomeOk(o)
   /\ \/ /\ o \in {"data", "keepalive"} /\ lpc' = "p.lock" /\ ackcnt' = Settled /\ pubOut' = o
         /\ seq' = seq + 1 /\ datas' = IF o = "data" THEN datas \cup {seq + 1} ELSE datas
-     \/ /\ o = "fault" /\ lpc' = "a.err" /\ pubOut' = "none" /\ UNCHANGED <<ackcnt, seq, datas>>
-  /\ Log("loop", "PubResult", o)
+        /\ \E sid \in srvSubs : pubSub' = sid /\ Log("loop", "PubResult", [o |-> o, sub |-> sid])
+     \/ /\ o = "fault" /\ lpc' = "a.err" /\ pubOut' = "none" /\ pubSub' = 0 /\ UNCHANGED <<ackcnt, seq, datas>>
+        /\ Log("loop", "PubResult", [o |-> o, sub |-> 0])
   /\ UNCHANGED <<pausech, resumech, mux, pend, inflight>> /\ UNCH_LOOP
 
 \* c.subMux.Lock() in publish; handleAcks drops what the response settled (the gopcua server
-\* returns no per-ack results, the client then clears the list); a data notification adds its ack
+\* returns no per-ack results, the client then clears the list); a data notification of a
+\* registered subscription adds its ack; a response for a subscription the client does not
+\* know (cancelled meanwhile, or not registered yet) is dropped after the lock is released
+PubKnown == pubSub \in subs
 LoopPubLock ==
   /\ lpc = "p.lock" /\ mux = "none"
   /\ mux' = "loop" /\ lpc' = "p.locked"
-  /\ pend' = (pend \ inflight) \cup (IF pubOut = "data" THEN {seq} ELSE {})
-  /\ inflight' = {} /\ pubOut' = "none"
-  /\ Log("loop", "PubLock", pubOut)
-  /\ UNCHANGED <<pausech, resumech, seq, ackcnt, datas>> /\ UNCH_LOOP
+  /\ pend' = (pend \ inflight) \cup (IF pubOut = "data" /\ PubKnown THEN {seq} ELSE {})
+  /\ datas' = IF pubOut = "data" /\ ~PubKnown THEN datas \ {seq} ELSE datas
+  /\ inflight' = {} /\ pubOut' = "none" /\ pubSub' = 0
+  /\ Log("loop", "PubLock", [o |-> pubOut, known |-> PubKnown])
+  /\ UNCHANGED <<pausech, resumech, seq, ackcnt>> /\ UNCH_LOOP
 
 \* publish returned an error: arrive at sub.pause.send
 LoopErr ==
   /\ lpc = "a.err" /\ lpc' = "ps.send"
   /\ Log("loop", "Err", 0)
-  /\ UNCHANGED <<pausech, resumech, mux, pubOut, seq, pend, inflight, ackcnt, datas>> /\ UNCH_LOOP
+  /\ UNCHANGED <<pausech, resumech, mux, pubOut, pubSub, seq, pend, inflight, ackcnt, datas>> /\ UNCH_LOOP
 
 \* pauseSubscriptions(ctx) by the loop itself (ctx = monitor context).  As-is the loop sends
 \* itself a pause signal, which can arrive after the resume of a reconnect that has already
@@ -342,7 +348,7 @@ LoopSelfPause ==
             /\ lpc' = "ps.sent"
        ELSE /\ lpc' = "a.pause" /\ UNCHANGED <<pausech, resumech>>
   /\ Log("loop", "SelfPause", 0)
-  /\ UNCHANGED <<mux, pubOut, seq, pend, inflight, ackcnt, datas>> /\ UNCH_LOOP
+  /\ UNCHANGED <<mux, pubOut, pubSub, seq, pend, inflight, ackcnt, datas>> /\ UNCH_LOOP
 
 Loop == (\E arm \in {"a.resume", "a.pause", "a.presume", "a.ppause", "a.publish", "done"} : LoopSelect(arm))
         \/ LoopPubStart \/ (\E o \in Outcomes : LoopPubResult(o)) \/ LoopPubLock \/ LoopErr \/ LoopSelfPause
@@ -351,7 +357,7 @@ Loop == (\E arm \in {"a.resume", "a.pause", "a.presume", "a.ppause", "a.publish"
 \* Monitor (client.go:302).  mpc: "idle", "m.psend", "m.psent", "m.act" (parked at mon.action
 \* of `action`), "m.done" (mon.done), "m.rsend", "m.rsent", "m.exit", "done".
 
-UNCH_MON == UNCHANGED <<closedSeen, apc, script, mine, cur, nextId, srvUp, lpc, pubOut, dialsAtClose, faults, seq,
+UNCH_MON == UNCHANGED <<closedSeen, apc, script, mine, cur, nextId, srvUp, lpc, pubOut, pubSub, dialsAtClose, faults, seq,
                         pend, inflight, ackcnt, datas, fseq>>
 
 ActionFor(e) == IF e = "eof" THEN "createSecureChannel" ELSE "recreateSession"
@@ -547,7 +553,7 @@ Mon == MonErr \/ MonCtx \/ MonPause \/ MonNext \/ MonCreateSC \/ MonRedial \/ Mo
 \* Environment faults
 
 UNCH_ENV == UNCHANGED <<state, closedSeen, apc, script, mine, cur, subs, nextId, sess, pausech, resumech, mux, lpc,
-                        pubOut, mpc, action, activeSubs, toRecreate, toRepublish, restored, ctxDone, dials,
+                        pubOut, pubSub, mpc, action, activeSubs, toRecreate, toRepublish, restored, ctxDone, dials,
                         dialsAtClose, seq, pend, inflight, ackcnt, datas, lost>>
 
 \* where the monitor is when something is injected
